@@ -133,6 +133,14 @@ fn real_base() -> PathBuf {
     base.join(format!("okane-sim-{}", std::process::id()))
 }
 
+/// A fresh real scratch directory path (not created).
+pub fn fresh_real_dir() -> PathBuf {
+    let n = REAL_COUNTER.fetch_add(1, std::sync::atomic::Ordering::SeqCst);
+    let dir = real_base().join(format!("t{}", n));
+    let _ = std::fs::remove_dir_all(&dir);
+    dir
+}
+
 /// Materialises `files` (paths under /w) in a fresh real directory; returns its path.
 pub fn materialise(files: &BTreeMap<String, Vec<u8>>) -> std::io::Result<PathBuf> {
     let n = REAL_COUNTER.fetch_add(1, std::sync::atomic::Ordering::SeqCst);
